@@ -139,9 +139,15 @@ impl Prop for C05 {
                 cur = e;
             }
             vec![crate::dom::Doc::plain(cur)]
+        } else if rng.pct(2) {
+            // very wide position: dozens of struct-producing children under one parent (anything that renders or
+            // collects them out of order, e.g. on worker threads, shows here)
+            let which = if rng.pct(15) { 4 } else { 2 };
+            super::histories::family(&mut rng, &cfg, which).unwrap()
         } else {
             (0..k).map(|_| gen_doc(&mut rng, &cfg, &sk)).collect()
         };
+        let k = docs.len();
         let plan_of = |rng: &mut Rng, bytes: &[u8]| if rng.pct(80) { Plan::slice() } else { Plan::draw_transparent(rng, bytes) };
         let steps: Vec<Step> = (0..k)
             .map(|i| {
@@ -179,6 +185,12 @@ impl Prop for C05 {
             let last = replicas.len() - 1;
             replicas[last].role = "veteran-twin".into();
             replicas[last].warmup = warm;
+        }
+        if rng.pct(30) {
+            // logging twin: a host application has installed a logger at trace level (process-global state the unit
+            // tests and the default CLI never have)
+            let i = rng.below(replicas.len().max(2) - 1);
+            replicas[i].role = format!("logging-{}", replicas[i].role);
         }
         let derive = rng.pick(&["Serialize, Deserialize", "", "Debug", "Debug, Clone, Debug", "Serialize, Deserialize, Debug, Serialize", "B, A, C, A, B"]).to_string();
         Scenario::Session(Session { alts: vec![None; docs.len()], docs, replicas, opts: all_opts(&derive) })
@@ -253,6 +265,9 @@ impl Prop for C05 {
         bump(ctr, "fault.entropy_twin_sessions");
         if s.replicas.iter().any(|r| !r.warmup.is_empty()) {
             bump(ctr, "fault.veteran_thread_twin");
+        }
+        if s.replicas.iter().any(|r| r.role.starts_with("logging")) {
+            bump(ctr, "fault.logging_enabled_twin");
         }
         if s.docs.iter().any(|d| d.root.depth() >= 120) {
             bump(ctr, "reach.deep_chain_history");
